@@ -401,6 +401,15 @@ func genC19(c *Ctx) {
 	// ops: the atomic steps of the protocol models in every order (linearisations) through the real functions
 	r := c.Rng
 	slog.SetDefault(slog.New(slog.NewTextHandler(io.Discard, nil)))
+	// a refused request (wrong credentials) has no effect on what the following uploads of the track find: receiver
+	// restarted on an existing storage, first request of every track refused (scenario shared with C17)
+	if vInit, e1 := readAsset("testpic_2s/V300/init.mp4"); e1 == nil {
+		if aInit, e2 := readAsset("testpic_2s/A48/init.mp4"); e2 == nil {
+			for i := 0; i < c.N(2, 10); i++ {
+				c17Restart(r, vInit, aInit, func(kind, what string, ops []string, _ any) { c.Violate(kind, what, ops, nil) }, c.Count, func(string) {})
+			}
+		}
+	}
 	for i := 0; i < c.N(150, 1500); i++ {
 		n := r.Range(1, 10)
 		var names []string
